@@ -136,6 +136,7 @@ pub assume_specification<T, U, F: FnOnce(T) -> U>[core::option::Option::<T>::map
 pub assume_specification<T, U, D: FnOnce() -> U, F: FnOnce(T) -> U>[core::option::Option::<T>::map_or_else::<U, D, F>](o: Option<T>, default: D, f: F) -> (out: U)
     requires o is Some ==> f.requires((o->Some_0,)), o is None ==> default.requires(()),
     ensures o is None ==> default.ensures((), out), o is Some ==> f.ensures((o->Some_0,), out);
+pub assume_specification<T>[core::mem::drop::<T>](x: T);
 pub assume_specification<T, F: FnOnce(T) -> bool>[core::option::Option::<T>::is_some_and](o: Option<T>, f: F) -> (out: bool)
     requires o is Some ==> f.requires((o->Some_0,)),
     ensures o is None ==> !out, o is Some ==> f.ensures((o->Some_0,), out);
